@@ -21,6 +21,12 @@ import (
 //	(e) Shutdown returned  =>  #stop invocations = #successful starts for every module, and no module is online
 //	    (also once everything that was still running has finished)
 //
+// The property quantifies over "every sequence of Enable/Disable + ManageModules calls between Start and Shutdown":
+// once a Start or ManageModules call FOLLOWS a Shutdown call the history has left that domain (the code does not
+// refuse such calls and (d) itself then demands modules online), and (e) is not judged any more. (a)-(d) are
+// judged on every history. The global prep/shutdown functions and the command-line operation are not mentioned
+// by the property; their lines (setg/glob) are left to the acceptor.
+//
 // Callbacks registered as nil are not observable; clauses that would need their events are skipped for them.
 func monitor(c hxlib.Case, outs []string) (vs []hxlib.Violation) {
 	if len(c.Lines) == 0 {
@@ -45,7 +51,9 @@ func monitor(c hxlib.Case, outs []string) (vs []hxlib.Violation) {
 	life := make([]int, n) // 0 not started / completely stopped, 1 start running, 2 start finished successfully, 3 stop running
 	startOk := make([]int, n)
 	stopBeg := make([]int, n)
-	pendingRet := "" // the last "ret" line, for the obs that follows
+	pendingRet := ""  // the last "ret" line, for the obs that follows
+	sdCalled := false // Shutdown has been called
+	outside := false  // a Start / ManageModules call followed a Shutdown call: (e) is not judged any more
 	wanted := func() []bool {
 		w := make([]bool, n)
 		if !sc.Mgmt {
@@ -200,6 +208,11 @@ func monitor(c hxlib.Case, outs []string) (vs []hxlib.Violation) {
 				}
 			}
 		case "call":
+			if len(f) == 2 && f[1] == "shutdown" {
+				sdCalled = true
+			} else if sdCalled {
+				outside = true
+			}
 		case "ret":
 			pendingRet = c.Lines[i]
 		case "obs", "fin":
@@ -208,6 +221,8 @@ func monitor(c hxlib.Case, outs []string) (vs []hxlib.Violation) {
 				continue
 			}
 			switch {
+			case outside && (f[0] == "fin" || strings.HasPrefix(pendingRet, "ret shutdown")):
+				// outside the property's histories (see above)
 			case f[0] == "fin":
 				stoppedCheck(i, st, "after Shutdown returned and all callbacks finished")
 			case pendingRet == "ret start ok" || (pendingRet == "ret manage ok" && sc.Mgmt):
